@@ -2827,6 +2827,13 @@ class Controller:
         if not self.link:
             return None
 
+        if not command.cis_connection_handle:
+            # At least one CIS is required
+            self._send_hci_command_status(
+                hci.HCI_ErrorCode.INVALID_COMMAND_PARAMETERS_ERROR, command.op_code
+            )
+            return None
+
         for cis_handle, acl_handle in zip(
             command.cis_connection_handle, command.acl_connection_handle
         ):
